@@ -360,6 +360,19 @@ pub fn run(ctx: &'static Ctx) -> (&'static str, Value, Vec<&'static str>) {
     }
     long.extend([3u8, 1, 1, 3, 3, 4, 4]);
     let longs = vec![long, vec![0u8; 500], (0..500).map(|i| [0u8, 2, 3, 7, 4, 5][i % 6]).collect()];
+    let mut longs = longs;
+    // an elevation resumed after k intervening groups, k = 1..=100 (radial groups of other
+    // elevations, or status / VCP / other messages)
+    for k in 1..=100usize {
+        let mut a: Vec<u8> = vec![0];
+        a.extend((0..k).map(|i| if i % 2 == 0 { 2u8 } else { 7 }));
+        a.push(0);
+        longs.push(a);
+        let mut b: Vec<u8> = vec![2, 2];
+        b.extend((0..k).map(|i| [3u8, 4, 5, 6, 3][i % 5]));
+        b.extend([2u8, 0, 2]);
+        longs.push(b);
+    }
     for w in &longs {
         let o = check_word(ctx, &cache, w);
         stats.eval();
@@ -368,7 +381,7 @@ pub fn run(ctx: &'static Ctx) -> (&'static str, Value, Vec<&'static str>) {
         stats.count("structured_long_lists", 1);
     }
     let mut cov = stats.coverage(
-        "stateright BFS over message words: alphabet {R1 (elev 1, REF), R1v (elev 1, REF+VEL, VOL 212), R2 (elev 2, all moments, VOL 35), S, V, O3, O18} to depth 6 (thorough 7), {R1,R2} to depth 12 (14), {R1,R2,R3n,S[,R1v]} to depth 7 (8); each symbol is a real decoded Message stamped with its position; invariant runs the real summarize::messages in every state and checks tiling, count=span, maximal-run rule, continuation flags, data-type counts, first/last azimuth and time, collection-time range, VCP set, and a split differential from non-initial states. non-trivial = >=2 reference groups",
+        "stateright BFS over message words: alphabet {R1 (elev 1, REF), R1v (elev 1, REF+VEL, VOL 212), R2 (elev 2, all moments, VOL 35), S, V, O3, O18} to depth 6 (thorough 7), {R1,R2} to depth 12 (14), {R1,R2,R3n,S[,R1v]} to depth 7 (8); each symbol is a real decoded Message stamped with its position; invariant runs the real summarize::messages in every state and checks tiling, count=span, maximal-run rule, continuation flags, data-type counts, first/last azimuth and time, collection-time range, VCP set, and a split differential from non-initial states; plus 200 lists in which an elevation is resumed after k = 1..=100 intervening groups. non-trivial = >=2 reference groups",
         true,
         json!({"models": reports}),
     );
